@@ -462,10 +462,18 @@ pub fn run(ctx: &Ctx) -> Report {
     rep.sample(json!({"cnf": [[1, 2], [-2, 3]], "order": [0, 1, 2], "store": "standard", "checks": "models, paths, 12 conditionings of d and of not d"}));
     rep.assumptions.push("orders are permutations of exactly the CNF's variables 0..max index (the builder's precondition)".into());
     rep.assumptions.push("the semantic store is exercised with the shipped seed over the 64-bit field; a hash collision between different functions would show up as a wrong model set".into());
+    // long formulas: 9 to 70 clauses over 6 to 10 variables (longcnf.rs)
+    if !disabled("longcnf") {
+        let w = crate::props::longcnf::top_down(ctx);
+        rep.merge(w);
+    }
     rep
 }
 
 pub fn replay(_ctx: &Ctx, case: &Value) -> Report {
+    if let Some(r) = crate::props::longcnf::replay(_ctx, case, true) {
+        return r;
+    }
     let mut rep = Report::default();
     let clauses = cnf_from_json(&case["cnf"]);
     let order: Vec<usize> = case["order"].as_array().map(|a| a.iter().filter_map(|x| x.as_u64()).map(|x| x as usize).collect()).unwrap_or_default();
